@@ -53,10 +53,10 @@ impl Desc {
 
 pub fn descriptions() -> Vec<Desc> {
     let ips = ["10.0.0.1", "192.168.7.9", "fe80::1", "::ffff:10.0.0.1"];
-    let ports = [0u16, 80, 8080];
+    let ports = [0u16, 80, 65535];
     let long_entry = "L".repeat(255);
     let mut out = Vec::new();
-    for name in ["a", "b1", "x-y"] {
+    for name in ["a", "Ab1", "x-y"] {
         for im in 0..16u8 {
             for pm in 0..8u8 {
                 for k in 0..4u8 {
@@ -283,7 +283,7 @@ pub fn run(ctx: &Ctx) {
     ctx.sample(json!({"kind": "history", "events": [Event::Peer(descs[descs.len() / 2 + 7].clone())]}));
     // histories
     let d1 = descs.iter().find(|d| d.name == "a" && d.ips.len() == 2 && d.ports.len() == 2 && d.attrs.len() == 2).unwrap().clone();
-    let d2 = descs.iter().find(|d| d.name == "b1" && d.ips.len() == 1 && d.ports.len() == 1 && d.attrs.get("k") == Some(&Some(String::new()))).unwrap().clone();
+    let d2 = descs.iter().find(|d| d.name == "Ab1" && d.ips.len() == 1 && d.ports.len() == 1 && d.attrs.get("k") == Some(&Some(String::new()))).unwrap().clone();
     let d3 = descs.iter().find(|d| d.name == "x-y" && d.ips.is_empty() && d.ports.is_empty() && d.attrs.is_empty()).unwrap().clone();
     let menu: Vec<Event> = vec![
         Event::Peer(d1.clone()),
